@@ -1118,34 +1118,173 @@ def _norm(e, defs, depth=0):
     return pf.src(e).replace(" ", "")
 
 
-def _ub_offset(e, i0, dn, body_assign, defs, depth=0):
-    """smallest provable o with e <= i0 + step + o (None: nothing provable); e is a chunk-end expression"""
-    if depth > 6 or e is None:
-        return None
-    if isinstance(e, ast.Name):
-        if e.id in body_assign:
-            return _ub_offset(body_assign[e.id], i0, dn, body_assign, defs, depth + 1)
-        if e.id in defs:
-            return _ub_offset(defs[e.id], i0, dn, body_assign, defs, depth + 1)
-        return None
-    if _norm(e, defs) in ("(%sAdd%s)" % (i0, dn), "(%sAdd%s)" % (dn, i0)):
+# -- a tiny polynomial normal form over integer coefficients and opaque atoms (for chunk start / end) ----------
+def _padd(a, b, sign=1):
+    out = dict(a)
+    for k, v in b.items():
+        out[k] = out.get(k, 0) + sign * v
+    return {k: v for k, v in out.items() if v != 0}
+
+
+def _pmul(a, b):
+    out = {}
+    for ka, va in a.items():
+        for kb, vb in b.items():
+            k = tuple(sorted(ka + kb))
+            out[k] = out.get(k, 0) + va * vb
+    return {k: v for k, v in out.items() if v != 0}
+
+
+class _Poly:
+    """expressions -> polynomials; names are replaced by their (single) definition; anything that is not + - *
+    of integers becomes an opaque atom identified by its normalised text (the AST is kept for inspection)"""
+
+    def __init__(self, env, counter_map):
+        self.env = env
+        self.cmap = counter_map
+        self.atoms = {}
+
+    def resolve(self, e, depth=0):
+        while isinstance(e, ast.Name) and e.id in self.env and depth < 6:
+            e = self.env[e.id]
+            depth += 1
+        return e
+
+    def atom(self, e):
+        t = self.text(e)
+        self.atoms.setdefault(t, e)
+        return {(t,): 1}
+
+    def text(self, e, depth=0):
+        e = self.resolve(e)
+        if isinstance(e, ast.Call) and pf.call_name(e) == "len" and len(e.args) == 1:
+            return self.text(e.args[0]) + ".shape[0]"
+        if isinstance(e, ast.BinOp):
+            return "(%s%s%s)" % (self.text(e.left), type(e.op).__name__, self.text(e.right))
+        if isinstance(e, ast.UnaryOp):
+            return "(%s%s)" % (type(e.op).__name__, self.text(e.operand))
+        if isinstance(e, ast.Call):
+            return "%s(%s)" % (pf.src(e.func), ",".join(self.text(a) for a in e.args))
+        if isinstance(e, ast.IfExp):
+            return "(%s if %s else %s)" % (self.text(e.body), self.text(e.test), self.text(e.orelse))
+        if isinstance(e, ast.Compare):
+            return "(%s%s%s)" % (self.text(e.left), type(e.ops[0]).__name__, self.text(e.comparators[0]))
+        return pf.src(e).replace(" ", "")
+
+    def poly(self, e, depth=0):
+        if depth > 12:
+            return self.atom(e)
+        if isinstance(e, ast.Constant) and isinstance(e.value, int) and not isinstance(e.value, bool):
+            return {(): e.value} if e.value else {}
+        if isinstance(e, ast.Name):
+            if e.id in self.cmap:
+                return dict(self.cmap[e.id])
+            if e.id in self.env:
+                return self.poly(self.env[e.id], depth + 1)
+            return self.atom(e)
+        if isinstance(e, ast.BinOp) and isinstance(e.op, (ast.Add, ast.Sub)):
+            return _padd(self.poly(e.left, depth + 1), self.poly(e.right, depth + 1), 1 if isinstance(e.op, ast.Add) else -1)
+        if isinstance(e, ast.BinOp) and isinstance(e.op, ast.Mult):
+            return _pmul(self.poly(e.left, depth + 1), self.poly(e.right, depth + 1))
+        if isinstance(e, ast.UnaryOp) and isinstance(e.op, ast.USub):
+            return _pmul({(): -1}, self.poly(e.operand, depth + 1))
+        if isinstance(e, ast.Call) and pf.call_name(e) == "len" and len(e.args) == 1:
+            return {(self.text(e),): 1}
+        return self.atom(e)
+
+
+CTR = "@c"
+
+
+def _split_counter(p):
+    """p = S0 + D * c  ->  (S0, D) ; None when c occurs with another degree"""
+    s0, d = {}, {}
+    for k, v in p.items():
+        n = k.count(CTR)
+        if n == 0:
+            s0[k] = v
+        elif n == 1:
+            kk = tuple(x for x in k if x != CTR)
+            d[kk] = d.get(kk, 0) + v
+        else:
+            return None
+    return s0, d
+
+
+def _const_of(p):
+    """integer value of a constant polynomial, else None"""
+    if not p:
         return 0
-    if isinstance(e, ast.Call) and pf.call_name(e) in ("min", "np.minimum") and e.args:
-        offs = [_ub_offset(a, i0, dn, body_assign, defs, depth + 1) for a in e.args]
-        offs = [o for o in offs if o is not None]
-        return min(offs) if offs else None
-    if isinstance(e, ast.BinOp) and isinstance(e.op, (ast.Add, ast.Sub)) and isinstance(e.right, ast.Constant) \
-            and isinstance(e.right.value, int):
-        o = _ub_offset(e.left, i0, dn, body_assign, defs, depth + 1)
-        return None if o is None else (o + e.right.value if isinstance(e.op, ast.Add) else o - e.right.value)
-    if isinstance(e, ast.BinOp) and isinstance(e.op, ast.Add) and isinstance(e.left, ast.Constant) \
-            and isinstance(e.left.value, int):
-        o = _ub_offset(e.right, i0, dn, body_assign, defs, depth + 1)
-        return None if o is None else o + e.left.value
+    if set(p) == {()}:
+        return p[()]
     return None
 
 
+def _is_ceil_div(P, e, Npoly, Dpoly, depth=0):
+    """e == ceil(N / D) in one of the integer idioms (N + D - 1) // D, -(-N // D), max(1, .), `. if N > 0 else 0`,
+    math.ceil(N / D)"""
+    e = P.resolve(e)
+    if depth > 4:
+        return False
+    if isinstance(e, ast.IfExp) and _const_of(P.poly(e.orelse)) == 0:
+        return _is_ceil_div(P, e.body, Npoly, Dpoly, depth + 1)
+    if isinstance(e, ast.Call) and pf.call_name(e) in ("max",) and len(e.args) == 2:
+        for a, b in ((e.args[0], e.args[1]), (e.args[1], e.args[0])):
+            if _const_of(P.poly(a)) == 1 and _is_ceil_div(P, b, Npoly, Dpoly, depth + 1):
+                return True
+        return False
+    if isinstance(e, ast.Call) and (pf.call_name(e) or "").split(".")[-1] == "ceil" and len(e.args) == 1:
+        a = P.resolve(e.args[0])
+        return isinstance(a, ast.BinOp) and isinstance(a.op, ast.Div) and P.poly(a.left) == Npoly and P.poly(a.right) == Dpoly
+    if isinstance(e, ast.Call) and pf.call_name(e) == "int" and len(e.args) == 1:
+        return _is_ceil_div(P, e.args[0], Npoly, Dpoly, depth + 1)
+    if isinstance(e, ast.BinOp) and isinstance(e.op, ast.FloorDiv):
+        return P.poly(e.right) == Dpoly and P.poly(e.left) == _padd(_padd(Npoly, Dpoly), {(): 1}, -1)
+    if isinstance(e, ast.UnaryOp) and isinstance(e.op, ast.USub):
+        x = P.resolve(e.operand)
+        return isinstance(x, ast.BinOp) and isinstance(x.op, ast.FloorDiv) and P.poly(x.right) == Dpoly \
+            and P.poly(x.left) == _pmul({(): -1}, Npoly)
+    return False
+
+
+def _strip_zero_guard(P, e):
+    """`K if <cond> else 0` -> K (nothing to cover in the else case)"""
+    e = P.resolve(e)
+    while isinstance(e, ast.IfExp) and _const_of(P.poly(e.orelse)) == 0:
+        e = P.resolve(e.body)
+    return e
+
+
+def _floor_div_of(P, Dpoly, Npoly):
+    """D is the single atom `N // K` -> the AST of K, else None"""
+    if len(Dpoly) == 1 and list(Dpoly.values()) == [1] and len(list(Dpoly)[0]) == 1:
+        node = P.resolve(P.atoms.get(list(Dpoly)[0][0]))
+        if isinstance(node, ast.BinOp) and isinstance(node.op, ast.FloorDiv) and P.poly(node.left) == Npoly:
+            return node.right
+    return None
+
+
+def _pretty(t):
+    return t.replace("USub", "-").replace("FloorDiv", "//").replace("Add", "+").replace("Sub", "-").replace("Mult", "*")
+
+
+def _ptext(p):
+    if not p:
+        return "0"
+    parts = []
+    for k, v in sorted(p.items()):
+        mono = "*".join(_pretty(x) for x in k)
+        parts.append(("%d*%s" % (v, mono)) if (mono and v != 1) else (mono or str(v)))
+    return " + ".join(parts)
+
+
 def rule_chunk_loop(chk):
+    """KernelEvaluator.__call__: the chunks [start(c), end(c)) for c = 0 .. K-1 must tile [0, N).  start and end are
+    brought to the form S0 + D*c (+ L) over opaque atoms; the verdict is
+      ok         S0 = 0, L = D (or end clipped / extended to N), and  K*D >= N  (range(0, N, D); K = ceil(N/D);
+                 D = N // K with the last chunk extended to N)
+      violation  S0 > 0; L < D; D = N // K with K*D the end (K*(N//K) <= N, equal only if K | N); loop bound N - c
+      exit 2     anything else (neither coverage nor an uncovered remainder can be shown)"""
     prog = pf.Program(chk.tree, [XE])
     mod = prog.module(XE)
     r = prog.find_method(mod, mod.cls("KernelEvaluator"), "__call__")
@@ -1171,105 +1310,171 @@ def rule_chunk_loop(chk):
     lp = loops[0]
     tg = lp.target.elts if isinstance(lp.target, ast.Tuple) else [lp.target]
     lv = tg[0].id
-    defs = _single_defs(fn, exclude={lv})
-    N = "%s.shape[0]" % x1
-    problems = []
-    body_assign = {n.targets[0].id: n.value for n in lp.body if isinstance(n, ast.Assign) and len(n.targets) == 1
-                   and isinstance(n.targets[0], ast.Name)}
+    env = dict(_single_defs(fn, exclude={lv}))
+    body_assign = {}
+    for n in lp.body:
+        if isinstance(n, ast.Assign) and len(n.targets) == 1:
+            t, v = n.targets[0], n.value
+            if isinstance(t, ast.Name):
+                body_assign[t.id] = v
+            elif isinstance(t, ast.Tuple) and isinstance(v, ast.Tuple) and len(t.elts) == len(v.elts):
+                for a_, b_ in zip(t.elts, v.elts):
+                    if isinstance(a_, ast.Name):
+                        body_assign[a_.id] = b_
+    env.update(body_assign)
+    P0 = _Poly(env, {})
+    Npoly = {("%s.shape[0]" % x1,): 1}
     args = lp.iter.args
-    i0 = lv
+    is_prange = (pf.call_name(lp.iter) or "").endswith("prange")
     if len(args) == 3:
-        a0, aN, adn = args
-        start, bound, dn = _norm(a0, defs), _norm(aN, defs), _norm(adn, defs)
+        start0, step = P0.poly(args[0]), P0.poly(args[2])
+        cmap = {lv: _padd(start0, _pmul(step, {(CTR,): 1}))}
+        bound = P0.poly(args[1])       # starts are below `bound`
+        K = None
     else:
-        # `for c in range(K): i0 = c * step` == `for i0 in range(0, K * step, step)`
-        K = _norm(args[-1], defs)
-        if len(args) == 2 and _norm(args[0], defs) != "0":
-            raise core.AnalysisError("%s: chunk counter does not start at 0; coverage not decided" % fq)
-        cand = [(k, v) for k, v in body_assign.items() if isinstance(v, ast.BinOp) and isinstance(v.op, ast.Mult)
-                and lv in (pf.src(v.left), pf.src(v.right))]
-        if len(cand) != 1:
-            raise core.AnalysisError("%s: the chunk start is not `<counter> * <step>`; coverage of [0, N) not decided" % fq)
-        i0, v = cand[0]
-        stepe = v.right if pf.src(v.left) == lv else v.left
-        dn = _norm(stepe, defs)
-        start, bound = "0", "(%sMult%s)" % (K, dn)
-    if start != "0":
-        problems.append("the first chunk starts at %s, not 0: samples [0, %s) are never evaluated" % (start, start))
-    short_bound, undecided_bound = None, False
-    # `for c in range(ceil(N / dn)): i0 = c * dn` visits exactly the starts of range(0, N, dn)
-    ceil_forms = {"(((%sAdd%s)Sub1)FloorDiv%s)" % (N, dn, dn), "((%sAdd(%sSub1))FloorDiv%s)" % (N, dn, dn)}
-    ceil_forms |= {"max(1,%s)" % c_ for c_ in list(ceil_forms)} | {"max(%s,1)" % c_ for c_ in list(ceil_forms)}
-    if bound in {"(%sMult%s)" % (c_, dn) for c_ in ceil_forms} | {"(%sMult%s)" % (dn, c_) for c_ in ceil_forms}:
-        bound = N
-    if bound != N:
-        # equal-size chunks: K chunks of step = N // K cover [0, K * (N // K)), which is [0, N) only if K divides N
-        m = None
-        for K_ in {bound[1:-1].split("Mult")[0], bound[1:-1].split("Mult")[-1]} if bound.startswith("(") and "Mult" in bound else ():
-            if dn == "(%sFloorDiv%s)" % (N, K_) and bound in ("(%sMult%s)" % (K_, dn), "(%sMult%s)" % (dn, K_)) \
-                    and K_ not in ("1", N):
-                m = K_
-        tail_ok = None
-        if m is not None:
-            # ... unless the last chunk is extended to the end: `i1 = N if c == K - 1 else i0 + step`
-            for k_, v_ in body_assign.items():
-                if isinstance(v_, ast.IfExp) and isinstance(v_.test, ast.Compare) and len(v_.test.ops) == 1:
-                    t_ = v_.test
-                    eq = isinstance(t_.ops[0], ast.Eq)
-                    ne = isinstance(t_.ops[0], (ast.NotEq, ast.Lt))
-                    last = {_norm(t_.left, defs), _norm(t_.comparators[0], defs)} == {lv, "(%sSub1)" % m}
-                    b_, o_ = _norm(v_.body, defs), _norm(v_.orelse, defs)
-                    inner = "(%sAdd%s)" % (i0, dn)
-                    if last and ((eq and b_ == N and o_ == inner) or (ne and b_ == inner and o_ == N)):
-                        tail_ok = k_
-        if tail_ok is not None:
-            pass
-        elif m is not None:
-            problems.append("the chunks cover [0, K * (N // K)) with K = %s and N = %s: K * (N // K) <= N with equality "
-                            "only when N %% K == 0, so the last N %% K samples are never evaluated (e.g. N = 2 * dn + 1)"
-                            % (m.replace("FloorDiv", "//").replace("Add", "+").replace("Sub", "-"), N))
-        else:
-            short_bound = None
-            mm = [c_ for c_ in ("1", "2", "3", "4") if bound == "(%sSub%s)" % (N, c_)]
-            if mm:
-                short_bound = mm[0]
-            undecided_bound = short_bound is None
-    else:
-        tail_ok = None
-    uppers_ok = {"min(%s,(%sAdd%s))" % (N, i0, dn), "min((%sAdd%s),%s)" % (i0, dn, N), "(%sAdd%s)" % (i0, dn)}
-    body_defs = dict(defs)
-    upper_names = set()
-    if len(tg) == 2 and (pf.call_name(lp.iter) or "").endswith("prange"):
-        upper_names.add(tg[1].id)  # prange yields (start, stop) pairs
-    for k, v in body_assign.items():
-        if _norm(v, defs) in uppers_ok:
-            upper_names.add(k)
-    if tail_ok is not None:
-        upper_names.add(tail_ok)
+        if len(args) == 2 and _const_of(P0.poly(args[0])) != 0:
+            raise core.AnalysisError("%s: the chunk counter does not start at 0; coverage not decided" % fq)
+        cmap = {lv: {(CTR,): 1}}
+        K = _strip_zero_guard(P0, args[-1])
+        bound = None
+    P = _Poly(env, cmap)
+    if is_prange and len(tg) == 2:
+        # prange(0, N, d) yields (i0, min(i0 + d, N))
+        P.env[tg[1].id] = ast.Call(func=ast.Name(id="min", ctx=ast.Load()), args=[
+            ast.BinOp(left=ast.Name(id=lv, ctx=ast.Load()), op=ast.Add(), right=args[2]), args[1]], keywords=[])
+    # the chunk [lower, upper) as used by the slices of X1 / res / dres
+    shapes = {}
     n_sub = 0
-    undecided_upper = []
-    all_within_step = True
+    problems = []
     for n in ast.walk(lp):
         if isinstance(n, ast.Subscript) and isinstance(n.value, ast.Name) and n.value.id in bufs | {x1}:
             n_sub += 1
             sl = n.slice.elts[0] if isinstance(n.slice, ast.Tuple) and n.slice.elts else n.slice
-            good = isinstance(sl, ast.Slice) and sl.step is None and sl.lower is not None and sl.upper is not None \
-                and _norm(sl.lower, {}) == i0 and (
-                    (isinstance(sl.upper, ast.Name) and sl.upper.id in upper_names) or _norm(sl.upper, body_defs) in uppers_ok)
-            lower_ok = isinstance(sl, ast.Slice) and sl.step is None and sl.lower is not None and _norm(sl.lower, {}) == i0
-            off = _ub_offset(sl.upper, i0, dn, body_assign, defs) if (lower_ok and sl.upper is not None) else None
-            if off is None or off > 0:
-                all_within_step = False
-            if not good:
-                if not lower_ok:
-                    problems.append("%s does not start at the chunk start %s" % (pf.src(n), i0))
-                elif off is not None and off < 0:
-                    problems.append("%s is at most %s + step - %d long while the loop advances by the full step: the "
-                                    "samples in between are never evaluated" % (pf.src(n), i0, -off))
-                else:
-                    undecided_upper.append(pf.src(n))
+            if not (isinstance(sl, ast.Slice) and sl.step is None and sl.lower is not None and sl.upper is not None):
+                raise core.AnalysisError("%s: %s is not a [start:end] chunk slice; coverage not decided" % (fq, pf.src(n)))
+            up = P.resolve(sl.upper)
+            clip, tail = False, None
+            if isinstance(up, ast.IfExp):
+                tail, up = up, None
+            else:
+                cands = _upper_candidates(P, up)
+                fixed = [c_ for c_ in cands if not any(CTR in k for k in c_)]
+                moving = [c_ for c_ in cands if any(CTR in k for k in c_)]
+                for c_ in fixed:
+                    d_ = _const_of(_padd(c_, Npoly, -1))
+                    if d_ is None:
+                        raise core.AnalysisError("%s: chunk end clipped by %s; coverage not decided" % (fq, _ptext(c_)))
+                    if d_ < 0:
+                        problems.append("%s never extends beyond N - %d: the last %d sample(s) are never evaluated" % (
+                            pf.src(n), -d_, -d_))
+                    clip = True
+                if len(moving) != 1:
+                    raise core.AnalysisError("%s: chunk end %s is not `start + length` (optionally clipped); coverage "
+                                             "not decided" % (fq, pf.src(sl.upper)))
+                up = moving[0]
+            key = (tuple(sorted(P.poly(sl.lower).items())),
+                   tuple(sorted(up.items())) if up is not None else ("ifexp", P.text(tail)), clip)
+            shapes.setdefault(key, (sl, up, clip, tail, n))
     if n_sub < 2:
-        problems.append("the loop body no longer slices %s / %s by the chunk" % (x1, "/".join(sorted(bufs))))
+        raise core.AnalysisError("%s: the loop body does not slice %s / %s by the chunk; coverage not decided" % (
+            fq, x1, "/".join(sorted(bufs))))
+    if len(shapes) != 1:
+        problems.append("the input and the accumulation buffers are sliced by different chunks (%s)" % ", ".join(
+            pf.src(v[4]) for v in shapes.values()))
+    sl, up, clip, tail, _n = list(shapes.values())[0]
+    lo = _split_counter(P.poly(sl.lower))
+    if lo is None:
+        raise core.AnalysisError("%s: chunk start %s is not affine in the loop counter; coverage not decided" % (
+            fq, pf.src(sl.lower)))
+    S0, D = lo
+    undecided = None
+    verdict_ok = False
+    s0c = _const_of(S0)
+    if s0c is None or not D:
+        undecided = "chunk start %s" % _ptext(P.poly(sl.lower))
+    elif s0c != 0:
+        problems.append("the first chunk starts at %d, not 0: samples [0, %d) are never evaluated" % (s0c, s0c)
+                        if s0c > 0 else "the first chunk starts at %d" % s0c)
+    # chunk length
+    Kdiv = _floor_div_of(P, D, Npoly)          # D = N // Kdiv ?
+    extended_last = False
+    if tail is not None:
+        # `N if c == K - 1 else start + D` (either orientation): the last chunk is extended to the end
+        t_ = tail.test
+        ok_tail = False
+        if isinstance(t_, ast.Compare) and len(t_.ops) == 1 and Kdiv is not None:
+            sides = [P.poly(t_.left), P.poly(t_.comparators[0])]
+            lastc = _padd(P.poly(Kdiv), {(): 1}, -1)
+            is_last = ({(CTR,): 1} in sides) and (lastc in sides)
+            inner = _padd(P.poly(sl.lower), D)
+            b_, o_ = P.poly(tail.body), P.poly(tail.orelse)
+            if is_last and ((isinstance(t_.ops[0], ast.Eq) and b_ == Npoly and o_ == inner)
+                            or (isinstance(t_.ops[0], (ast.NotEq, ast.Lt)) and b_ == inner and o_ == Npoly)):
+                ok_tail = True
+        if ok_tail:
+            extended_last = True
+            L = D
+        else:
+            undecided = "chunk end %s" % P.text(tail)
+            L = None
+    else:
+        L = _padd(up, P.poly(sl.lower), -1)
+        if any(CTR in k for k in L):
+            undecided = "chunk length %s depends on the counter" % _ptext(L)
+            L = None
+    if L is not None and L != D and undecided is None:
+        diff = _const_of(_padd(L, D, -1))
+        if diff is not None and diff < 0:
+            problems.append("each chunk is %d sample(s) shorter than the stride %s of the loop: the samples in between "
+                            "are never evaluated" % (-diff, _ptext(D)))
+        elif diff is not None and diff > 0 and not any(
+                isinstance(x, ast.AugAssign) for x in ast.walk(lp) if isinstance(x, ast.AugAssign) and pf.base_name(x.target) in bufs):
+            pass  # overlapping chunks that are overwritten, not accumulated: still a cover
+        elif diff is not None and diff > 0:
+            problems.append("chunks overlap by %d sample(s) and are accumulated with +=: the overlap is counted twice" % diff)
+        else:
+            undecided = "chunk length %s vs stride %s" % (_ptext(L), _ptext(D))
+    # extent
+    if undecided is None and not problems:
+        if K is not None:                       # counter form: c = 0 .. K-1, covered [0, K*D) (clipped to N)
+            Kp = P.poly(K)
+            if _is_ceil_div(P, K, Npoly, D):
+                verdict_ok = True
+            elif Kdiv is not None and P.poly(Kdiv) == Kp:
+                if extended_last:
+                    verdict_ok = True
+                elif _const_of(Kp) == 1:
+                    verdict_ok = True
+                else:
+                    problems.append("the %s chunks of length N // K (K = %s, N = %s) cover [0, K * (N // K)); K * (N // K) <= N "
+                                    "with equality only when N %% K == 0, so the last N %% K samples are never evaluated "
+                                    "(e.g. N = 2 * dn + 1)" % ("K", _pretty(P.text(K)),
+                                                               _ptext(Npoly)))
+            else:
+                undecided = "number of chunks %s with stride %s" % (P.text(K), _ptext(D))
+        else:                                   # range form: starts below `bound`
+            if bound == Npoly:
+                verdict_ok = True
+            else:
+                over = _const_of(_padd(bound, Npoly, -1))
+                quo = None
+                if Kdiv is not None and bound == _pmul(P.poly(Kdiv), D):
+                    quo = Kdiv
+                if quo is not None and not extended_last and _const_of(P.poly(quo)) != 1:
+                    problems.append("the loop runs to K * (N // K) (K = %s): K * (N // K) <= N with equality only when "
+                                    "N %% K == 0, so the last N %% K samples are never evaluated (e.g. N = 2 * dn + 1)"
+                                    % _pretty(P.text(quo)))
+                elif over is not None and over < 0:
+                    problems.append("the loop starts chunks only below N - %d and no chunk is longer than the stride, so "
+                                    "whenever N - %d is a multiple of the stride the last %d sample(s) are never evaluated"
+                                    % (-over, -over, -over))
+                elif over is not None and over >= 0:
+                    verdict_ok = True            # extra empty / clipped chunks beyond N are harmless
+                elif bound == _pmul(D, {}) or _is_ceil_times(P, bound, Npoly, D):
+                    verdict_ok = True
+                else:
+                    undecided = "loop bound %s" % _ptext(bound)
+    # accumulation
     for n in ast.walk(lp):
         if isinstance(n, ast.Assign):
             for t in n.targets:
@@ -1280,22 +1485,43 @@ def rule_chunk_loop(chk):
                         problems.append("`%s` overwrites the shared accumulation buffer instead of adding to it" % pf.src(n))
         if isinstance(n, ast.AugAssign) and pf.base_name(n.target) in bufs and not isinstance(n.op, ast.Add):
             problems.append("`%s` is not an additive accumulation" % pf.src(n))
-    if short_bound is not None:
-        if all_within_step:
-            problems.append("the loop starts chunks only below N - %s and no chunk is longer than the step %s, so whenever "
-                            "N - %s is a multiple of the step the last %s sample(s) are never evaluated (e.g. N = step + %s)"
-                            % (short_bound, dn, short_bound, short_bound, short_bound))
-        else:
-            undecided_bound = True
-    if not problems and (undecided_bound or undecided_upper):
-        raise core.AnalysisError("%s: coverage of [0, N) by the chunk loop is not decided (loop bound %s%s): neither one "
-                                 "of the accepted schemes nor a scheme with an exhibitable uncovered remainder" % (
-                                     fq, bound, ("; chunk end of " + ", ".join(undecided_upper[:2])) if undecided_upper else ""))
     if problems:
         chk.violation("chunk-loop", XE, fq, "chunk loop over %s" % x1, lp.lineno,
                       "; ".join(problems) + " (results must not depend on the chunk size)", instance=inst)
+    elif undecided is not None or not verdict_ok:
+        raise core.AnalysisError("%s: coverage of [0, N) by the chunk loop is not decided (%s): neither one of the "
+                                 "accepted schemes nor a scheme with an exhibitable uncovered remainder" % (fq, undecided))
     else:
         chk.ok("chunk-loop", inst)
+
+
+def _upper_candidates(P, e, depth=0):
+    """polynomials whose minimum is the value of e: min(a, b) -> both, x +/- const -> shifted candidates"""
+    e = P.resolve(e)
+    if depth < 6 and isinstance(e, ast.Call) and pf.call_name(e) in ("min", "np.minimum") and len(e.args) >= 2:
+        out = []
+        for a in e.args:
+            out += _upper_candidates(P, a, depth + 1)
+        return out
+    if depth < 6 and isinstance(e, ast.BinOp) and isinstance(e.op, (ast.Add, ast.Sub)):
+        for x, y, sgn in ((e.left, e.right, 1 if isinstance(e.op, ast.Add) else -1),) + (
+                ((e.right, e.left, 1),) if isinstance(e.op, ast.Add) else ()):
+            c = _const_of(P.poly(y))
+            if c is not None and isinstance(P.resolve(x), ast.Call):
+                return [_padd(p_, {(): c}, sgn) for p_ in _upper_candidates(P, x, depth + 1)]
+    return [P.poly(e)]
+
+
+def _is_ceil_times(P, bound, Npoly, D):
+    """bound == ceil(N / D) * D for one of the ceil idioms"""
+    if len(bound) != 1:
+        return False
+    for k in bound:
+        for atom in k:
+            node = P.atoms.get(atom)
+            if node is not None and _is_ceil_div(P, node, Npoly, D) and bound == _pmul({(atom,): 1}, D):
+                return True
+    return False
 
 
 # ----------------------------------------------------------------------------
